@@ -647,8 +647,14 @@ pub fn concat_failures(a: &Program, b: &Program, c: &Program, judge_used: bool) 
     fails
 }
 
+/// equal as `==` says and equal in what C11 names: body, every definition by key and value, used qubits
+/// (the order of definitions within a kind is C08's observable, not C11's)
 fn same_program(x: &Program, y: &Program) -> bool {
-    x == y && listing_texts(x) == listing_texts(y) && used_of(x) == used_of(y)
+    let tables = |p: &Program| -> Vec<HashMap<String, String>> {
+        let is = p.to_instructions();
+        TABLES.iter().map(|t| is.iter().filter(|i| kind_of(i) == *t).map(|i| (key_of(i), i.to_quil_or_debug())).collect()).collect()
+    };
+    x == y && body_texts(x) == body_texts(y) && tables(x) == tables(y) && used_of(x) == used_of(y)
 }
 
 // ------------------------------------------------------------------------------ fresh-process texts
@@ -736,7 +742,7 @@ fn load_sym(history: &Value, sym: &mut Sym, o: &mut Outcome) {
 }
 
 fn is_observation(op: &Value) -> bool {
-    matches!(op["ev"].as_str(), Some("Obs") | Some("ObsConcat") | Some("reset"))
+    matches!(op["ev"].as_str(), Some("Obs") | Some("ObsConcat") | Some("ObsText") | Some("reset"))
 }
 
 // ------------------------------------------------------------------------------------------ replay
@@ -786,7 +792,7 @@ fn nontrivial(pid: &str, ops: &[Value], sym: &Sym, m: &Machine) -> bool {
                 })
         }
         "C09" => (redefinition || adds.iter().any(|r| r.k == "Extern")) && adds.iter().any(|r| r.k == "Body"),
-        "C10" => redefinition || ops.iter().any(|o| !matches!(o["ev"].as_str(), Some("Add") | Some("Obs") | Some("ObsConcat"))),
+        "C10" => redefinition || ops.iter().any(|o| !matches!(o["ev"].as_str(), Some("Add") | Some("Obs") | Some("ObsConcat") | Some("ObsText"))),
         "C11" => ops.iter().any(|o| matches!(o["ev"].as_str(), Some("Concat") | Some("AddAssign"))) && {
             // judged on the last concatenation's operands, recorded by replay in m (see below)
             true
@@ -1201,7 +1207,9 @@ impl Recorder {
         true
     }
 
-    /// `full` = with the serialized text (the C10 traces observe after every step and do not judge text)
+    /// The public observations of both registers.  `full` additionally records the serialized texts (ObsText
+    /// events, compared with the model's ToQuil as binding only: the exact layout of the text is not part of
+    /// any property; C08 judges that the definitions appear *in the text* in listing order, `text_ordered`).
     fn observe(&mut self, det: Option<bool>, full: bool) {
         let mut ev = json!({"ev": "Obs", "eq": self.m.p[0] == self.m.p[1]});
         let mut frames = vec![];
@@ -1210,8 +1218,23 @@ impl Recorder {
             let real = project(&p, &mut self.sym);
             let rebuilt = Program::from_instructions(p.to_instructions());
             frames.push(frames_matched_by_reset(&p));
+            let text = real.text.clone().unwrap_or_else(|| "<unprintable>".into());
+            let mut at = 0usize;
+            let mut ordered = real.text.is_some();
+            for i in p.to_instructions() {
+                match text[at..].find(&i.to_quil_or_debug()) {
+                    Some(k) => at += k + 1,
+                    None => {
+                        ordered = false;
+                        break;
+                    }
+                }
+            }
+            if full {
+                self.events.push(json!({"ev": "ObsText", "r": RN[r], "text": text}));
+            }
             ev[RN[r]] = json!({"listing": real.listing, "into": real.into, "used": used_json(&real.used), "len": real.len,
-                "text": if full { real.text.clone().unwrap_or_else(|| "<unprintable>".into()) } else { String::new() },
+                "text_ordered": ordered,
                 "rebuilt_eq": rebuilt == p, "rebuilt_text": rebuilt.to_quil().ok() == real.text});
         }
         ev["reset_frames_same"] = json!(frames[0] == frames[1]);
